@@ -16,11 +16,11 @@ import (
 
 func init() {
 	register(&PropRules{
-		ID: "C16",
+		ID:      "C16",
 		Explain: "Structural necessary conditions of 'the store directory stays valid; the consistency check is exact': (C16.1) in Check every loop iteration passes the extension test (error leaves), tests the opposite extension for existence and leaves on a duplicate, and clears the result only under valid ∧ admin ∧ supported hash; '.tmp' is skipped by constant; checkUserFile accepts exactly the two schema extensions; (C16.2) Init adds the admin only under isDirEmpty==true and isDirEmpty is true only for 0 entries or the single directory '.tmp'; (C16.3) Add writes only under exists==false with an O_CREATE|O_EXCL reservation, Update only under exists==true and a supported format, SetAdmin renames only under exists ∧ isAdmin≠adminState; (C16.4) the work area is cleaned on every exit; (C16.5) every CLI command except init/check obtains its store from openAndCheck, which returns an unchecked store only under !do-check (a BoolT flag), and every failure exits with status 3.",
-		Undec: []string{"exactness of the predicate over every directory content (only the guard structure per entry is decided)", "invariance under all operation histories", "directory iteration order effects beyond the symmetric duplicate test"},
-		Run:   runC16,
-		Floors: map[string]int{"C16.1": 5, "C16.2": 2, "C16.3": 3, "C16.4": 1, "C16.5": 9},
+		Undec:   []string{"exactness of the predicate over every directory content (only the guard structure per entry is decided)", "invariance under all operation histories", "directory iteration order effects beyond the symmetric duplicate test"},
+		Run:     runC16,
+		Floors:  map[string]int{"C16.1": 5, "C16.2": 2, "C16.3": 3, "C16.4": 1, "C16.5": 9},
 	})
 }
 
@@ -560,8 +560,8 @@ func c165(c *an.Ctx, p *an.Prog) {
 		}
 		// (b) every GetInterface receiver / store use derives from openAndCheck's result under err == nil
 		nUses := 0
-		for _, b := range fn.Blocks {
-			for _, in := range b.Instrs {
+		for _, in := range an.DeepInstrs(fn) {
+			{
 				ci, ok := in.(ssa.CallInstruction)
 				if !ok || an.CalleeName(ci) != "(*"+mainPkg+".store).GetInterface" {
 					continue
@@ -582,8 +582,8 @@ func c165(c *an.Ctx, p *an.Prog) {
 		}
 		// closures (listener goroutines) capture s: check the capture comes from openAndCheck
 		for _, an2 := range fn.AnonFuncs {
-			for _, b := range an2.Blocks {
-				for _, in := range b.Instrs {
+			for _, in := range an.DeepInstrs(an2) {
+				{
 					if ci, ok := in.(ssa.CallInstruction); ok && an.CalleeName(ci) == "(*"+mainPkg+".store).GetInterface" {
 						nUses++
 					}
